@@ -570,6 +570,9 @@ func ruleR20(p *Prog) []Ob {
 				nC++
 				ordC[funcLabel(fn)]++
 				ob := Ob{Rule: "R20", Inst: fmt.Sprintf("c:closer:%s#%d", funcLabel(fn), ordC[funcLabel(fn)]), Props: append(append([]string{}, props...), "C03"), Pos: p.at(c), Func: funcLabel(fn), Nontrivial: true}
+				if fn.Name() == "Backup" {
+					ob.Props = append(ob.Props, "C20") // a backup leaves the source handle as it was
+				}
 				switch {
 				case ls.at[c][r.ReadersMu] == modeW:
 					ob.Status, ob.Msg = Discharged, "a call that can fail with 'in use' is made with the segment-list lock held exclusively: no reader can be inside the segment"
